@@ -437,17 +437,148 @@ Proof.
         -- right. unfold shl_direct. rewrite to_usize_big by lia. split; [reflexivity|]. right. split; [tauto|lia].
 Qed.
 
-Local Transparent Z.pow.
-(* ---------- bounded work: the power of two a shift materialises ---------- *)
-Theorem shift_bounded_work l r p k :
-  0 <= l ->
-  (shl_built r p = Some k -> 0 <= k < radix_len p) /\
-  (shr_built l r = Some k -> 0 <= k < bits l).
+(* ---------- bounded work of the shifts: the recursion as written, for ALL integer operands ---------- *)
+Lemma bits_ge0 x : 0 <= bits x.
+Proof. unfold bits. destruct (x =? 0); [lia|]. pose proof (Z.log2_nonneg (Z.abs x)). lia. Qed.
+
+Lemma radix_len_ge1 x : 1 <= radix_len x.
+Proof. unfold radix_len. destruct (x =? 0); [lia|]. pose proof (Z.log2_nonneg (Z.abs x)). lia. Qed.
+
+Lemma bits_mul_pow2 l k : 0 <= k -> bits (l * 2 ^ k) = if l =? 0 then 0 else bits l + k.
 Proof.
-  intros Hl. unfold shl_built, shr_built, to_usize.
-  destruct (Z.leb_spec 0 r); destruct (Z.ltb_spec r (2 ^ 64)); cbn [andb]; split; try discriminate.
-  - destruct (Z.leb_spec (radix_len p) r); [discriminate|]. intros [= <-]. lia.
-  - destruct (Z.leb_spec (bits l) r); [discriminate|]. intros [= <-]. lia.
+  intros Hk. unfold bits. assert (H2 : 0 < 2 ^ k) by (apply Z.pow_pos_nonneg; lia).
+  destruct (Z.eqb_spec l 0) as [->|Hl]; [reflexivity|].
+  destruct (Z.eqb_spec (l * 2 ^ k) 0) as [E|_]; [nia|].
+  rewrite Z.abs_mul, (Z.abs_eq (2 ^ k)) by lia. rewrite Z.log2_mul_pow2 by lia. lia.
+Qed.
+
+Lemma bits_pow2 k : 0 <= k -> bits (2 ^ k) = k + 1.
+Proof.
+  intros Hk. pose proof (bits_mul_pow2 1 k Hk) as H. rewrite Z.mul_1_l in H.
+  rewrite H. assert (E : bits 1 = 1) by reflexivity. rewrite E. cbn [Z.eqb]. lia.
+Qed.
+
+(* one direct call: the power built is smaller than the mask width (left) or the operand (right),
+   and nothing larger than operand-plus-mask-width bits is computed from it *)
+Lemma direct_work_bound left l r p :
+  (sw_calls (direct_work left l r p) = 1)%nat /\
+  (forall k, sw_built (direct_work left l r p) = Some k ->
+     0 <= k < 2 ^ 64 /\ r = k /\ if left then k < radix_len p else k < bits l) /\
+  0 <= sw_bits (direct_work left l r p) <= bits l + radix_len p.
+Proof.
+  pose proof (bits_ge0 l) as Hb. pose proof (radix_len_ge1 p) as Hr.
+  unfold direct_work, to_usize.
+  destruct (Z.leb_spec 0 r); destruct (Z.ltb_spec r (2 ^ 64)); cbn [andb sw_calls sw_built sw_bits];
+    try (split; [reflexivity|split; [discriminate|lia]]).
+  destruct left.
+  - destruct (Z.leb_spec (radix_len p) r); cbn [sw_calls sw_built sw_bits];
+      [split; [reflexivity|split; [discriminate|lia]]|].
+    split; [reflexivity|]. split; [intros k [= <-]; lia|].
+    rewrite bits_mul_pow2 by lia. destruct (l =? 0); lia.
+  - destruct (Z.leb_spec (bits l) r); cbn [sw_calls sw_built sw_bits];
+      [split; [reflexivity|split; [discriminate|lia]]|].
+    split; [reflexivity|]. split; [intros k [= <-]; lia|].
+    rewrite bits_pow2 by lia. lia.
+Qed.
+
+(* the value of the recursion as written is the unfolded shift_l / shift_r of the refinement theorems *)
+Lemma shift_w_value fuel left l r p :
+  0 < p -> (2 <= fuel)%nat ->
+  fst (shift_w fuel left l r p) = if left then shift_l l r p else shift_r l r p.
+Proof.
+  intros Hp Hf. destruct fuel as [|[|n]]; try lia.
+  assert (Htop : Z.quot p 2 = p / 2) by (apply Z.quot_div_nonneg; lia).
+  cbn [shift_w]. unfold shift_l, shift_r. cbv zeta. rewrite Htop.
+  destruct (Z.leb_spec r (p / 2)).
+  - destruct left; reflexivity.
+  - destruct (Z.leb_spec (p - r) (p / 2)); [|lia].
+    destruct left; reflexivity.
+Qed.
+
+Lemma direct_not_outoffuel (left : bool) (l r p : Z) :
+  (if left then shl_direct l r p else shr_direct l r p) <> OutOfFuel.
+Proof.
+  destruct left; [unfold shl_direct|unfold shr_direct]; destruct (to_usize r); try discriminate;
+    match goal with |- context [if ?c then _ else _] => destruct c end; discriminate.
+Qed.
+
+Theorem shift_bounded_work fuel left l r p :
+  0 < p -> (2 <= fuel)%nat ->
+  fst (shift_w fuel left l r p) = (if left then shift_l l r p else shift_r l r p) /\
+  fst (shift_w fuel left l r p) <> OutOfFuel /\
+  (1 <= sw_calls (snd (shift_w fuel left l r p)) <= 2)%nat /\
+  (forall k, sw_built (snd (shift_w fuel left l r p)) = Some k ->
+     0 <= k < 2 ^ 64 /\ k < Z.max (radix_len p) (bits l) /\ (r = k \/ r = p - k)) /\
+  0 <= sw_bits (snd (shift_w fuel left l r p)) <= bits l + radix_len p.
+Proof.
+  intros Hp Hf. split; [apply shift_w_value; assumption|].
+  destruct fuel as [|[|n]]; try lia.
+  assert (Htop : Z.quot p 2 = p / 2) by (apply Z.quot_div_nonneg; lia).
+  cbn [shift_w]. cbv zeta. rewrite Htop.
+  destruct (Z.leb_spec r (p / 2)).
+  - cbn [fst snd]. destruct (direct_work_bound left l r p) as (Hc & Hk & Hs).
+    split; [apply direct_not_outoffuel|].
+    split; [lia|]. split; [|assumption].
+    intros k E. specialize (Hk k E). destruct left; lia.
+  - destruct (Z.leb_spec (p - r) (p / 2)); [|lia]. cbn [fst snd sw_calls sw_built sw_bits].
+    destruct (direct_work_bound (negb left) l (p - r) p) as (Hc & Hk & Hs).
+    split; [apply (direct_not_outoffuel (negb left))|].
+    split; [lia|]. split; [|assumption].
+    intros k E. specialize (Hk k E). destruct left; cbn [negb] in Hk; lia.
+Qed.
+
+Local Transparent Z.pow.
+(* ---------- operands that are no field elements (negative, at or above p): what still holds ---------- *)
+Lemma normalize_01 x p : normalize x p = 0 \/ normalize x p = 1.
+Proof. unfold normalize. destruct (comparable_element x p =? 0); auto. Qed.
+
+Lemma not_01 x p : not x p = 0 \/ not x p = 1.
+Proof. unfold not. destruct (normalize_01 x p) as [-> | ->]; cbn; auto. Qed.
+
+Lemma bool_and_01 l r p : bool_and l r p = 0 \/ bool_and l r p = 1.
+Proof. unfold bool_and. destruct (normalize_01 l p) as [-> | ->], (normalize_01 r p) as [-> | ->]; cbn; auto. Qed.
+
+Lemma bool_or_01 l r p : bool_or l r p = 0 \/ bool_or l r p = 1.
+Proof.
+  unfold bool_or, bool_and. destruct (normalize_01 l p) as [-> | ->], (normalize_01 r p) as [-> | ->]; cbn; auto.
+Qed.
+
+(* every function except `**` and the shifts answers canonically WHATEVER integers it is given
+   (the value itself is fixed by the property only for field elements) *)
+Theorem eval_canonical_any_integers o a b p c :
+  1 < p -> o <> OPow -> o <> OShl -> o <> OShr ->
+  eval o a b p = Ok c -> 0 <= c < p.
+Proof.
+  intros Hp Hpow Hshl Hshr.
+  assert (H01 : forall z, z = 0 \/ z = 1 -> 0 <= z < p) by (intros z [-> | ->]; lia).
+  destruct o; try congruence; cbn [eval].
+  - intros [= <-]. apply modulus_range; lia.
+  - intros [= <-]. apply modulus_range; lia.
+  - intros [= <-]. apply modulus_range; lia.
+  - unfold div, bind. destruct (mod_inverse b p) as [[ri|]| | |]; try discriminate.
+    intros [= <-]. apply modulus_range; lia.
+  - unfold idiv. cbv zeta. destruct (Z.eqb_spec (modulus b p) 0); [discriminate|]. intros [= <-].
+    pose proof (modulus_range a p ltac:(lia)). pose proof (modulus_range b p ltac:(lia)).
+    rewrite Z.quot_div_nonneg by lia. split; [apply Z.div_pos; lia|].
+    apply Z.le_lt_trans with (modulus a p); [|lia]. apply Z.div_le_upper_bound; nia.
+  - unfold mod_op. cbv zeta. destruct (Z.eqb_spec (modulus b p) 0); [discriminate|]. intros [= <-].
+    pose proof (modulus_range b p ltac:(lia)).
+    pose proof (modulus_range (modulus a p) (modulus b p) ltac:(lia)). lia.
+  - intros [= <-]. apply modulus_range; lia.
+  - intros [= <-]. apply modulus_range; lia.
+  - intros [= <-]. apply modulus_range; lia.
+  - intros [= <-]. apply modulus_range; lia.
+  - intros [= <-]. apply modulus_range; lia.
+  - intros [= <-]. destruct (as_bool a p); lia.
+  - intros [= <-]. apply H01, not_01.
+  - intros [= <-]. apply H01, bool_or_01.
+  - intros [= <-]. apply H01, bool_and_01.
+  - intros [= <-]. unfold eq. destruct (modulus a p =? modulus b p); lia.
+  - intros [= <-]. unfold lesser. destruct (comparable_element a p <? comparable_element b p); lia.
+  - intros [= <-]. apply H01, not_01.
+  - intros [= <-]. apply H01, bool_or_01.
+  - intros [= <-]. apply H01, not_01.
+  - intros [= <-]. apply H01, bool_or_01.
 Qed.
 
 (* ---------- the computable oracle equals the documented semantics ---------- *)
